@@ -114,7 +114,11 @@ def run(tier="quick"):
         root = os.path.join(facts.WORK, "witness")
         ds = sorted((os.path.join(root, x) for x in os.listdir(root)), key=os.path.getmtime)
         for old in ds[:-4]:
-            if os.path.basename(old) != facts.tree_hash():
+            try:
+                recent = time.time() - os.path.getmtime(old) < 3 * 3600
+            except OSError:
+                continue
+            if os.path.basename(old) != facts.tree_hash() and not recent:
                 shutil.rmtree(old, ignore_errors=True)
         return out
     finally:
